@@ -966,7 +966,7 @@ def _names_correspondence(ctx):
     if ctx.widen:
         NN = max(NN, 200)
     pairs = [(n, m) for n in range(NN + 1) for m in range(-n, n + 1, 2)]
-    lists = _coef_lists(ctx, None, ctx.scale(120, 1200))
+    lists = _coef_lists(ctx, None, ctx.scale(120, 1200) * (3 if ctx.widen else 1))      # degraded tie: three times the lists
     lines = []
     for a in range(0, len(pairs), 4000):
         lines.append('namekeys ' + ' '.join(f'{n} {m}' for n, m in pairs[a:a + 4000]))
@@ -1036,7 +1036,7 @@ def _names_correspondence(ctx):
 
 
     # ---- barplot_magnitudes: bars, labels and sort permutation (a few lists; matplotlib, Agg)
-    nb = ctx.scale(10, 60)
+    nb = ctx.scale(10, 60) * (3 if ctx.widen else 1)
     for t, (tag, lst) in enumerate(lists[:nb]):
         lst = lst[:60]
         sort, orient, err = bool(t % 2), ('h', 'v')[(t // 2) % 2], bool((t // 4) % 2)
@@ -1332,11 +1332,15 @@ MANIFEST_ENTRY = {
              'by ring/omega), so reordered summands, a conditional instead of (1+sign m)/2, // for int(/) etc. do not alarm. '
              'NAMES / PAIRING (session 3): also re-translated every run: _name_accessor (whole body), the spherical ordinal of nm_to_name, '
              'nm_to_name + _name_helper as a whole with every string replaced by its structure code (kind, ordinal, column word, suffix), the '
-             'grouping key of zernikes_to_magnitude_angle_nmkey, and the tables _names / _names_m; proved for every valid order: nm_to_name '
+             'grouping key of zernikes_to_magnitude_angle_nmkey, the whole-name / strip-last-word rule of zernikes_to_magnitude_angle, and the tables '
+             '_names / _names_m; proved for every valid order: nm_to_name '
              'returns (never raises) the structure of the model (gen_nameKey), that structure is one-to-one on the valid orders '
              '(name_injective, name_key_injective; the ordinal of a column is (n-|m|)/2+1 for even m, (n-1)/2 for odd m), table keys and '
              'words pairwise different; two coefficients are grouped exactly when they are the +m / -m terms of one (n,|m|) '
-             '(magang_pairs_exactly_pm) and a list naming each order once has groups of at most two (no 3-argument arctan2). '
+             '(magang_pairs_exactly_pm), a list naming each order once has groups of at most two (no 3-argument arctan2), the grouping '
+             'specification partitions the positions (magang_grouping_partition), the dict keys of zernikes_to_magnitude_angle are one-to-one on '
+             'the classes at structure level (gen_keepsWholeName + magang_name_keys_injective), suffix X/00 <-> m>0 and Noll even index <-> '
+             'cosine NAME (name_suffix_iff_cosine, noll_even_iff_cosine_name). '
              'Compared only: that the real strings have that structure and are pairwise different (all valid n<=80/400), magnitude = hypot, '
              'angle = degrees(atan2(first, second)), order of groups = first appearance, zernikes_to_magnitude_angle loses no class, '
              'top_n returns the k largest |c| in descending order with matching position and name; barplot_magnitudes draws one bar per class, label and height '
